@@ -598,7 +598,7 @@ class Interstitial(object):
             # determine if we have a new mode or not
             found = False
             for (lamb0, L0) in lambdaL:
-                if np.isclose(lamb0, l):
+                if np.isclose(lamb0, l, atol=1e-8*averate):  # degenerate on the scale of the rates
                     L0 += L
                     found = True
             if not found:
